@@ -88,9 +88,10 @@ class StepBudget(Exception):
 def count_steps(fn, budget, path_part='soupsieve'):
     """Run fn() counting 'line' events in frames whose file path contains `path_part`; StepBudget when exceeded."""
     count = [0]
+    parts = (path_part,) if isinstance(path_part, str) else tuple(path_part)
 
     def tracer(frame, event, arg):
-        if event == 'call' and path_part in frame.f_code.co_filename:
+        if event == 'call' and any(p in frame.f_code.co_filename for p in parts):
             def local(frame, event, arg):
                 if event == 'line':
                     count[0] += 1
@@ -108,7 +109,7 @@ def count_steps(fn, budget, path_part='soupsieve'):
     return count[0]
 
 
-def guarded_call(fn, cpu_s=10, confirm_steps=3_000_000):
+def guarded_call(fn, cpu_s=10, confirm_steps=3_000_000, path_part='soupsieve'):
     """('ok', value) | ('raise', exception) | ('hang', None) | ('slow', None).
     A call that burns `cpu_s` seconds of CPU is interrupted and run again under the line-event counter: only exceeding
     `confirm_steps` traced steps inside soupsieve is a hang (clock-free verdict); otherwise it was merely slow."""
@@ -121,7 +122,7 @@ def guarded_call(fn, cpu_s=10, confirm_steps=3_000_000):
         return ('raise', e)
     try:
         with cpu_guard(max(60, cpu_s * 12)):
-            count_steps(fn, confirm_steps)
+            count_steps(fn, confirm_steps, path_part)
         return ('slow', None)
     except StepBudget:
         return ('hang', None)
